@@ -55,7 +55,10 @@ def check_meta(pid, tier, seed, replay):
     if replay and not any(l.startswith("CASE ") for l in open(replay)):
         # replay of a broken proof obligation / build / infrastructure report: there is no input to re-run, the
         # reproduction is the check itself
-        print("replay file %s names no input (a proof, build or infrastructure report): re-running the %s check" % (replay, tier))
+        mts = re.search(r"^# tier=(\w+) seed=(\d+)", open(replay).read(), re.M)
+        if mts:
+            tier, seed = mts.group(1), int(mts.group(2))
+        print("replay file %s names no input (a proof, build or infrastructure report): re-running the %s check at seed %s" % (replay, tier, seed))
         replay = None
     t0 = time.time()
     cfg = PROPS[pid]
@@ -282,15 +285,16 @@ def check_meta(pid, tier, seed, replay):
         violations.append("VIOLATION property=%s replay=%s no-failing-input-found" % (pid, path))
     elif infra:
         path = os.path.join(VERIF, "replays", "%s-infra.case" % pid)
-        open(path, "w").write("# the check could not run as configured; the property is not shown to hold on this run\n# %s\n" % "\n# ".join(infra))
+        open(path, "w").write("# tier=%s seed=%s\n" % (tier, seed) + "# the check could not run as configured; the property is not shown to hold on this run\n# %s\n" % "\n# ".join(infra))
         violations.append("VIOLATION property=%s replay=%s no-failing-input-found" % (pid, path))
     elif missing_build:
         path = os.path.join(VERIF, "replays", "%s-build.case" % pid)
-        open(path, "w").write("# components that do not build against the current tree: %s\n# %s\n" % (missing_build, "\n# ".join(log[-6:]).replace("\n", "\n# ")))
+        open(path, "w").write("# tier=%s seed=%s\n" % (tier, seed) + "# components that do not build against the current tree: %s\n# %s\n" % (missing_build, "\n# ".join(log[-6:]).replace("\n", "\n# ")))
         violations.append("VIOLATION property=%s replay=%s no-failing-input-found" % (pid, path))
     elif not proof["proof_ok"]:
         path = os.path.join(VERIF, "replays", "%s-proof.case" % pid)
         with open(path, "w") as f:
+            f.write("# tier=%s seed=%s\n" % (tier, seed))
             f.write("# proof obligations of %s no longer check; the search over %d cases found no failing input\n" % (pid, evaluations))
             for p in proof["problems"]:
                 f.write("# " + p.replace("\n", "\n# ") + "\n")
